@@ -182,6 +182,41 @@ func opens(path, upw, opw string) (bool, error) {
 	return false, err
 }
 
+// C25AllModes: read with wrong credentials under every command mode (thorough tier), else a fixed sample.
+var C25AllModes = os.Getenv("VERIF_TIER") == "thorough"
+
+var c25Modes = []model.CommandMode{model.LISTINFO, model.OPTIMIZE, model.EXTRACTCONTENT, model.EXTRACTIMAGES, model.EXTRACTATTACHMENTS, model.LISTATTACHMENTS,
+	model.LISTPERMISSIONS, model.ROTATE, model.DUMP, model.DECRYPT, model.CHANGEUPW, model.CHANGEOPW, model.SETPERMISSIONS, model.LISTKEYWORDS, model.EXPORTFORMFIELDS, model.VALIDATESIGNATURES, model.TRIM}
+
+// wrongPasswordAllModes opens an encrypted document with neither of its passwords, for a range of
+// command modes: no document may come back, and the error must be a refusal (wrong password, owner
+// password required, or "encrypted input not supported" for the commands that never take one).
+func wrongPasswordAllModes(path string) error {
+	modes := c25Modes
+	if C25AllModes {
+		modes = nil
+		for m := model.VALIDATE; m <= model.ADDSIGNATURE; m++ {
+			modes = append(modes, m)
+		}
+	}
+	for _, m := range modes {
+		conf := model.NewDefaultConfiguration()
+		conf.UserPW, conf.OwnerPW = wrongSentinel, wrongSentinel+"x"
+		conf.Cmd = m
+		ctx, err := pdfcpu.ReadFile(path, conf)
+		if ctx != nil {
+			return fmt.Errorf("read for command mode %d with neither password returned a document (err=%v)", m, err)
+		}
+		if err == nil {
+			return fmt.Errorf("read for command mode %d with neither password: no error and no document", m)
+		}
+		if !errors.Is(err, pdfcpu.ErrWrongPassword) && !errors.Is(err, pdfcpu.ErrOwnerPasswordRequired) && !errors.Is(err, pdfcpu.ErrEncrypted) {
+			return fmt.Errorf("read for command mode %d with neither password failed with another error: %w", m, err)
+		}
+	}
+	return nil
+}
+
 func (c25Store) Observe(path string) (string, error) {
 	conf := model.NewDefaultConfiguration()
 	conf.Cmd = model.VALIDATE
@@ -194,6 +229,13 @@ func (c25Store) Observe(path string) (string, error) {
 		}
 		enc = !ok
 		_ = err
+	}
+	if enc {
+		// "yields no content" holds for every way of opening the document, not only for validation: the
+		// password check depends on the command the document is read for
+		if err := wrongPasswordAllModes(path); err != nil {
+			return "", err
+		}
 	}
 	var sb strings.Builder
 	fmt.Fprintf(&sb, "enc=%v ", enc)
